@@ -290,7 +290,7 @@ fn exec_random(t: &mut Tape, st: &mut Stats) -> Result<(), String> {
     let mut hops = vec![];
     for _ in 0..nh {
         let status = *t.pick(&[302u16, 301, 303, 307, 308, 300, 305, 399]);
-        let nloc = t.weighted(&[6, 2, 1]) + 1;
+        let nloc = t.weighted(&[8, 3, 2, 1, 1]) + 1;
         let mut locations: Vec<Vec<u8>> = vec![];
         for k in 0..nloc {
             if k + 1 < nloc && t.chance(30) {
@@ -371,7 +371,7 @@ pub static DEF: PropDef = PropDef {
     id: "C14",
     rule: "random chains of 1..4 redirects from a dot-segment-free http/https start URI; Locations over unreserved characters plus ; = & , : \
 absolute http/https/HTTP with and without default / non-default ports and mixed-case hosts, scheme-relative, path-absolute, \
-path-relative with '.', '..' and empty segments in every position, query-only, empty, optional fragments; 1..3 Location fields per \
+path-relative with '.', '..' and empty segments in every position, query-only, empty, optional fragments; 1..5 Location fields per \
 response (earlier ones possibly garbage, the last one counts); 6 % of hops carry a must-be-error Location (missing, obs-text / non-UTF-8, \
 unclosed '[', port > 65535 or non-numeric, empty authority). Oracle: Flow<Prepare>::uri() of the followed flow equals the RFC 3986 5.2 \
 reference resolution (model/rfc3986.rs, validated on the RFC 5.4 tables) of the last Location against the URI of the request just made, \
